@@ -109,4 +109,5 @@ package controllers
 
 //@ props C04
 //@ func package-operator.run/internal/controllers.FreeCacheAndRemoveFinalizer
+//@   sink RemoveFinalizer:Client.Patch#1 requires [C04] objid(arg1) == objid(obj)
 //@   ensures tdPending() == old(tdPending())
